@@ -2,11 +2,13 @@
 
 design       : SelectionMC (state machine of one decision point: options, mode, coefficients, theta class; forward
                passes with grad enabled and under torch.no_grad(); writes to alpha by in-place copy_, assignment to
-               .data, optimizer step and load_state_dict of a checkpoint taken in another state) is model-checked to
+               .data, optimizer step and load_state_dict of a checkpoint taken in another state; freezing and
+               unfreezing alpha by train_selection / train_net_only / train_nas_only / train_net_and_nas) is model-checked to
                closure for MPS (pinned and repaired `update_softmax_options`) and SuperNet (as implemented with the
                named deviation, reference semantics) and - expected to fail - for defective variants: the combiner
                without the deviation admitted, summary() that re-samples, and an inference-time short cut that keeps a
-               cached theta_alpha across writes to alpha (flag-based, alpha._version-based, for MPS and SuperNet).
+               cached theta_alpha across writes to alpha (flag-based, alpha._version-based, for MPS and SuperNet), and
+               a forward pass that re-samples only while alpha is trainable.
 spec -> code : TLC dumps the reachable graphs; a covering walk executes EVERY edge on real MPSPerLayerQtz,
                MPSPerChannelQtz, SuperNetCombiner objects and on small whole MPS / SuperNet models
                (summary() and export() included).
@@ -1086,7 +1088,10 @@ def run(tier: str, seed: int, replay: Optional[str] = None) -> int:
         "writes to alpha: copy_ under no_grad, assignment to alpha.data, one SGD step (lr 1) with the gradient alpha - new; "
         "load_state_dict loads the (deep-copied) state_dict of a second object / model of the same type and architecture that "
         "was driven to the state the edge names (coefficients, theta_alpha class via mode / options, temperature); "
-        "a bare SuperNetCombiner gets train_selection=True as SuperNet.__init__ does",
+        "trainability of alpha is a state dimension: alpha.requires_grad is logged for every decision point; a bare quantiser "
+        "is frozen by alpha.requires_grad = False, a combiner by train_selection, models by train_net_only() / train_nas_only() / "
+        "train_net_and_nas() (SuperNet also by train_selection); in the graphs without the freeze action a bare SuperNetCombiner "
+        "gets train_selection=True as SuperNet.__init__ does; an optimizer step is only taken while alpha is trainable",
         "per-channel export is identified by matching weight rows of the exported parts with the searched layer",
     ]
     R.exhaustive = False
@@ -1206,8 +1211,7 @@ def run(tier: str, seed: int, replay: Optional[str] = None) -> int:
                                  what=f"MPSPerChannelQtz / pc_{optimpl}_{sfx}: every edge")
     pw_ch = len(next(iter(G["pcw"][0].values()))["st"]["rank"])
     scen += bare_channel(G["pcw"], f"MPSPerChannelQtz ({pw_ch} channels) / pcw_{optimpl}_{sfx}: every edge", c=pw_ch)
-    if thorough:        # quick: the option interleavings on per-channel objects come from the random driver only
-        scen += bare_channel(G["mps3"], f"MPSPerChannelQtz (4 channels) / mps_{optimpl}_thorough3: every edge")
+    if thorough:        # (per-channel objects walk the full alphabet in the mpsfrz graph below)
         scen += bare_layer(G["mps3"], f"MPSPerLayerQtz / mps_{optimpl}_thorough3: every edge")
     scen += bare_sn(G["sn"], f"SuperNetCombiner / sn_{sfx}: every edge")
     if thorough:
